@@ -5,6 +5,9 @@ From Coq Require Import ZifyBool.
 Open Scope Z_scope.
 
 (* ------------------------------------------------------------------ lists *)
+Lemma zlen_nonneg' {A} (l : list A) : 0 <= zlen l.
+Proof. unfold zlen. lia. Qed.
+
 Lemma upd_length {A} (x : A) : forall l n, length (upd n x l) = length l.
 Proof. induction l as [|y l IH]; intros [|n]; cbn; auto. Qed.
 
@@ -136,3 +139,96 @@ Proof.
   - destruct (cstep cf tid) as [cf1|] eqn:E; [|discriminate].
     eapply IH; [|eassumption]. eapply reach_step; eassumption.
 Qed.
+
+(* ------------------------------------------------------------------ termination *)
+(* A CAS fails only when the value the thread loaded is stale, and the shared word only
+   changes when some request RETURNS (a successful CAS); so every failed CAS is paid for by
+   another thread's completed request.  Measure: pending requests, then per-thread phase
+   (stale-loaded 3 > idle 2 > fresh-loaded 1 > finished 0). *)
+Definition th_score (rl : Z) (th : thread) : Z :=
+  match t_pending th with
+  | [] => 0
+  | _ => match t_pc th with Idle => 2 | Loaded c => if c =? rl then 1 else 3 end
+  end.
+Definition score (cf : cconf) : Z := sumZ (th_score (c_rlimit cf)) (c_threads cf).
+Definition nthreads (cf : cconf) : Z := zlen (c_threads cf).
+Definition measure (cf : cconf) : Z := npending cf * (3 * nthreads cf + 1) + score cf.
+
+Lemma th_score_range rl th : 0 <= th_score rl th <= 3.
+Proof. unfold th_score. destruct (t_pending th); [lia|]. destruct (t_pc th); [lia|]. destruct (_ =? _); lia. Qed.
+Lemma score_range rl l : 0 <= sumZ (th_score rl) l <= 3 * zlen l.
+Proof.
+  induction l as [|t l IH]; cbn [sumZ fold_right]; [cbn; lia|].
+  pose proof (th_score_range rl t). unfold sumZ in IH. unfold zlen in *. cbn [length]. lia.
+Qed.
+Lemma npending_nonneg l : 0 <= sumZ (fun th => zlen (t_pending th)) l.
+Proof.
+  induction l as [|t l IH]; cbn [sumZ fold_right]; [lia|]. unfold sumZ in IH. unfold zlen in *. lia.
+Qed.
+Lemma measure_nonneg cf : 0 <= measure cf.
+Proof.
+  unfold measure, score, nthreads, npending.
+  pose proof (score_range (c_rlimit cf) (c_threads cf)). pose proof (npending_nonneg (c_threads cf)).
+  pose proof (zlen_nonneg' (c_threads cf)). nia.
+Qed.
+
+(* the shared word changes only when a request returns *)
+Lemma rlimit_changes_only_by_return cf tid cf' : cstep cf tid = Some cf' ->
+  c_rlimit cf' <> c_rlimit cf -> npending cf' = npending cf - 1.
+Proof.
+  intros Hs Hne. destruct (cstep_cases cf tid cf' Hs) as (th & sz & rest & En & Ep & Hc).
+  destruct Hc as [[Hpc ->] | [(ok & new & Hpc & Hcr & ->) | (curr & Hpc & Hne' & ->)]];
+    cbn [c_rlimit] in Hne; try congruence.
+  unfold npending. cbn [c_threads]. rewrite (sumZ_upd _ _ _ _ _ En). cbn [t_pending]. rewrite Ep.
+  unfold zlen. cbn [length]. lia.
+Qed.
+
+(* a CAS fails only on a stale value *)
+Lemma cas_fails_only_when_stale cf tid cf' th : cstep cf tid = Some cf' ->
+  nth_error (c_threads cf) tid = Some th ->
+  forall curr, t_pc th = Loaded curr -> npending cf' = npending cf -> curr <> c_rlimit cf.
+Proof.
+  intros Hs En curr Hpc Hnp. destruct (cstep_cases cf tid cf' Hs) as (th' & sz & rest & En' & Ep & Hc).
+  rewrite En in En'. inversion En'; subst th'.
+  destruct Hc as [[Hpc' _] | [(ok & new & Hpc' & Hcr & ->) | (curr' & Hpc' & Hne' & _)]]; try congruence.
+  exfalso. unfold npending in Hnp. cbn [c_threads] in Hnp. rewrite (sumZ_upd _ _ _ _ _ En) in Hnp.
+  cbn [t_pending] in Hnp. rewrite Ep in Hnp. unfold zlen in Hnp. cbn [length] in Hnp. lia.
+Qed.
+
+Lemma measure_decreases cf tid cf' : cstep cf tid = Some cf' -> measure cf' < measure cf.
+Proof.
+  intros Hs. destruct (cstep_cases cf tid cf' Hs) as (th & sz & rest & En & Ep & Hc).
+  pose proof (score_range (c_rlimit cf) (c_threads cf)) as Hsc.
+  pose proof (npending_nonneg (c_threads cf)) as Hnp. pose proof (zlen_nonneg' (c_threads cf)) as Hk.
+  destruct Hc as [[Hpc ->] | [(ok & new & Hpc & Hcr & ->) | (curr & Hpc & Hne & ->)]];
+    unfold measure, score, nthreads, npending in *; cbn [c_rlimit c_threads];
+    unfold zlen at 2; rewrite upd_length; fold (zlen (c_threads cf)).
+  - rewrite !(sumZ_upd _ _ _ _ _ En).
+    unfold th_score at 2 3. cbn [t_pending t_pc]. rewrite Ep, Hpc. rewrite Z.eqb_refl. lia.
+  - pose proof (score_range new (upd tid (mkTh Idle rest ((sz, ok) :: t_done th)) (c_threads cf))) as Hs'.
+    unfold zlen in Hs' at 1. rewrite upd_length in Hs'. fold (zlen (c_threads cf)) in Hs'.
+    rewrite (sumZ_upd (fun th0 => zlen (t_pending th0)) _ _ _ _ En).
+    cbn [t_pending]. rewrite Ep. unfold zlen at 2 3. cbn [length].
+    set (K := 3 * zlen (c_threads cf) + 1) in *.
+    set (P := sumZ (fun th0 => zlen (t_pending th0)) (c_threads cf)) in *.
+    set (S' := sumZ (th_score new) _) in *. set (S0 := sumZ (th_score (c_rlimit cf)) _) in *.
+    replace (P - Z.of_nat (S (length rest)) + Z.of_nat (length rest)) with (P - 1) by lia. nia.
+  - rewrite !(sumZ_upd _ _ _ _ _ En).
+    unfold th_score at 2 3. cbn [t_pending t_pc]. rewrite Ep, Hpc.
+    destruct (curr =? c_rlimit cf) eqn:E; [lia|]. lia.
+Qed.
+
+(* every schedule is finite: at most [measure] steps can be taken from a configuration,
+   whatever the interleaving (so every thread's retry loop terminates) *)
+Theorem canread_terminates : forall sched cf cf', exec cf sched = Some cf' ->
+  Z.of_nat (length sched) + measure cf' <= measure cf.
+Proof.
+  induction sched as [|tid r IH]; intros cf cf' H; cbn [exec length] in H |- *.
+  - inversion H; subst. lia.
+  - destruct (cstep cf tid) as [cf1|] eqn:E; [|discriminate].
+    pose proof (measure_decreases cf tid cf1 E). specialize (IH cf1 cf' H). lia.
+Qed.
+
+Corollary schedule_length_bound sched cf cf' : exec cf sched = Some cf' ->
+  Z.of_nat (length sched) <= measure cf.
+Proof. intros H. pose proof (canread_terminates sched cf cf' H). pose proof (measure_nonneg cf'). lia. Qed.
